@@ -175,13 +175,14 @@ where
             return Err(RadioError::InvalidBandwidthForFrequency);
         }
 
-        // Section 4.1.1.5 and 4.1.1.6
-        let bw_in_hz = u32::from(bandwidth);
-        let symbol_duration = 1000 / (bw_in_hz / (0x01u32 << spreading_factor_value(spreading_factor)?));
-        let mut low_data_rate_optimize = 0x00u8;
-        if symbol_duration > 16 {
-            low_data_rate_optimize = 0x01u8
-        }
+        // Section 4.1.1.5 and 4.1.1.6: low data rate optimisation is mandated for symbol times
+        // >= 16.38 ms (e.g. SF11 at 125 kHz); use the same decision as the airtime calculator
+        let low_data_rate_optimize =
+            if lora_modulation::BaseBandModulationParams::new(spreading_factor, bandwidth, coding_rate).ldro {
+                0x01u8
+            } else {
+                0x00u8
+            };
 
         Ok(ModulationParams {
             spreading_factor,
